@@ -2,3 +2,5 @@ import PylxProofs.BasicLemmas
 import PylxProofs.C20
 import PylxProofs.C11
 import PylxProofs.C17
+import PylxProofs.C19
+import PylxProofs.C04
